@@ -5,7 +5,11 @@ EXTENDS Gate, Sequences, Json, IOUtils, TLC
 T == ndJsonDeserialize(IOEnv.VERIF_IN)
 VARIABLE l
 Init == l = 0
-Judge(r) == r.fault = "" /\ r.panic = "" /\ GateOK(r)
+(* "c07p": the peer's Select.req is committed while the supervisor sits between the state load and the store of an OLDER
+   event (TCP-up echo / Deselect echo); the data frames pipelined behind the Select.req must be delivered, never rejected *)
+PipelinedOK(r) == /\ r.supervisor_parked /\ r.commit_in_window          \* the interleaving was really produced
+                  /\ r.select_rsp_status = 0 /\ r.rejects = 0 /\ r.delivered = r.data_sent /\ r.state_after = "S"
+Judge(r) == r.fault = "" /\ r.panic = "" /\ (IF r.t = "c07p" THEN PipelinedOK(r) ELSE GateOK(r))
 Next == /\ l < Len(T) /\ l' = l + 1
         /\ IF Judge(T[l + 1]) THEN TRUE ELSE PrintT(<<"REJECT", l + 1>>)
 Judged == TRUE
